@@ -11,6 +11,7 @@ import FeatModel.Lemmas.C14RefineCube
 import FeatModel.Lemmas.C14Det
 import FeatModel.Lemmas.C14SimplexScalar
 import FeatModel.Lemmas.C14Cover
+import FeatModel.Lemmas.C14Denote
 import Mathlib.Tactic.IntervalCases
 /-!
 # C14 — every named cubature rule is exact up to its nominal polynomial degree; unknown names are refused
@@ -476,6 +477,92 @@ theorem C14.every_rule_covered (s : Shape) (f : Factory) (n : Nat) (hf : f ∈ G
   have h2 := List.all_eq_true.1 h1 (n - f.minP) (by simp; omega)
   have hn : f.minP + (n - f.minP) = n := by omega
   rwa [hn] at h2
+
+/-- NO ACCEPTED NAME YIELDS AN EMPTY OR UN-NORMALISED RULE (all strings, both configurations, every shape, every
+    number of refinements `k ≥ 0` — `refine*0:` and `refine*k:`, `k ≥ 2`, included): if `create` answers a name, the
+    rule it denotes (`denoteQ`, what the driver prints and the real code is compared with) exists, has exactly
+    `basePoints · children^k ≥ 1` points and as many weights, and its weights sum to the reference volume up to
+    `19·2^-40` (refinement changes the weight sum by exactly nothing). -/
+theorem C14.accepted_rule_nonempty (pfx : Bool) (s : Shape) (name : Str) (d : Desc)
+    (h : createFor pfx s name = .ok d) :
+    1 ≤ d.numPoints s ∧
+    ∃ r, denoteQ s (tablesOf s) (tablesOf .h1) (Gen.refMapsOf s) d = some r ∧ r.w.length = d.numPoints s ∧
+      r.x.length = r.w.length ∧
+      |r.momentQ (List.replicate s.dim 0) - refIntQ s.simplex (List.replicate s.dim 0)| ≤ 19 * tolQ := by
+  have hf : d.fac ∈ Gen.factoriesOf s := (C14.name_refused pfx s name d h).1
+  obtain ⟨hlo, hhi⟩ := C14.create_out_of_range_refused pfx s name d h
+  have hb : baseOK s d.fac d.n = true := by
+    have hall := List.all_eq_true.1 allBasesOK_all s (mem_allShapes s)
+    unfold allBasesOK at hall
+    have h2 := List.all_eq_true.1 (List.all_eq_true.1 hall d.fac hf) (d.n - d.fac.minP) (by simp; omega)
+    have hn : d.fac.minP + (d.n - d.fac.minP) = d.n := by omega
+    rwa [hn] at h2
+  have hkinds := List.all_eq_true.1 (List.all_eq_true.1 kindsOK_all s (mem_allShapes s)) d.fac hf
+  have htol : (0 : Rat) ≤ tolQ := by unfold tolQ; positivity
+  have hrc : 1 ≤ refineCount s ^ d.refines := Nat.one_le_pow _ _ (by cases s <;> decide)
+  -- the un-refined rule
+  have hbase : ∃ b, (match d.fac.kind with
+        | .driver => findTable (tablesOf s) d.fac.name (if d.fac.variadic then d.n else 0)
+        | .tensor => (findTable (tablesOf .h1) d.fac.name (if d.fac.variadic then d.n else 0)).map (·.tensor s.dim)
+        | .scalar => (findTable (tablesOf .h1) d.fac.name (if d.fac.variadic then d.n else 0)).map (·.simplexScalar))
+        = some b ∧ b.w.length = basePoints s d.fac d.n ∧ b.w.length = b.x.length ∧ 1 ≤ basePoints s d.fac d.n ∧
+        |b.momentQ (List.replicate s.dim 0) - refIntQ s.simplex (List.replicate s.dim 0)| ≤ 19 * tolQ := by
+    unfold baseOK srcTable at hb
+    cases hk : d.fac.kind with
+    | driver =>
+      simp only [hk] at hb ⊢
+      cases hsrc : findTable (tablesOf s) d.fac.name (if d.fac.variadic then d.n else 0) with
+      | none => simp [hsrc] at hb
+      | some t =>
+        simp only [hsrc, Bool.and_eq_true, beq_iff_eq, decide_eq_true_eq] at hb
+        have hmem : t ∈ tablesOf s := List.mem_of_find?_eq_some hsrc
+        have hw := (momentOK_iff t s.simplex _).1 (C14.weights_sum s t hmem)
+        exact ⟨t, rfl, hb.2, hb.1.1, hb.1.2, by linarith⟩
+    | tensor =>
+      simp only [hk] at hb hkinds ⊢
+      cases hsrc : findTable (tablesOf .h1) d.fac.name (if d.fac.variadic then d.n else 0) with
+      | none => simp [hsrc] at hb
+      | some t =>
+        simp only [hsrc, Bool.and_eq_true, beq_iff_eq, decide_eq_true_eq] at hb
+        have hmem : t ∈ tablesOf .h1 := List.mem_of_find?_eq_some hsrc
+        obtain ⟨dd, _, hx⟩ := C14.tables_exact .h1 t hmem
+        have hsx : s.simplex = false := by simpa using hkinds
+        have hl := tensor_lengths t hb.1.1 s.dim
+        have hz : ∀ k ∈ List.replicate s.dim 0, k ≤ dd := fun k hk => by
+          rw [List.eq_of_mem_replicate hk]; exact Nat.zero_le _
+        have hw := tensor_exactQ t hb.2.2 dd tolQ htol (by unfold tolQ tolBits; norm_num)
+          ((exactTo_iff t false 1 dd).1 hx) s.dim (List.replicate s.dim 0) (by simp) hz
+        refine ⟨t.tensor s.dim, rfl, ?_, hl.2.symm, hb.1.2, ?_⟩
+        · rw [hl.1, hb.2.1]; simp [basePoints, hk]
+        · rw [hsx]
+          have h3 : ((3 : Rat) ^ s.dim - 2 ^ s.dim) ≤ 19 := by cases s <;> norm_num [Shape.dim]
+          calc _ ≤ ((3 : Rat) ^ s.dim - 2 ^ s.dim) * tolQ := hw
+            _ ≤ 19 * tolQ := mul_le_mul_of_nonneg_right h3 htol
+    | scalar =>
+      simp only [hk] at hb hkinds ⊢
+      cases hsrc : findTable (tablesOf .h1) d.fac.name (if d.fac.variadic then d.n else 0) with
+      | none => simp [hsrc] at hb
+      | some t =>
+        simp only [hsrc, Bool.and_eq_true, beq_iff_eq, decide_eq_true_eq] at hb
+        have hmem : t ∈ tablesOf .h1 := List.mem_of_find?_eq_some hsrc
+        obtain ⟨dd, _, hx⟩ := C14.tables_exact .h1 t hmem
+        have hs1 : s = .s1 := by cases s <;> first | rfl | exact absurd hkinds (by decide)
+        subst hs1
+        have hw := simplexScalar_exactQ t hb.2.2 dd tolQ ((exactTo_iff t false 1 dd).1 hx)
+          (List.replicate 1 0) rfl (by simp [esum])
+        refine ⟨t.simplexScalar, rfl, ?_, ?_, hb.1.2, ?_⟩
+        · simp [DyTable.simplexScalar, basePoints, hk, hb.2.1]
+        · simp [DyTable.simplexScalar, hb.1.1]
+        · show |t.simplexScalar.momentQ (List.replicate 1 0) - refIntQ true (List.replicate 1 0)| ≤ 19 * tolQ
+          linarith
+  obtain ⟨b, hbq, hlen, hleq, hbp, hbw⟩ := hbase
+  obtain ⟨rw1, rl, rx⟩ := refine_weight_sum b (Gen.refMapsOf s) (refMaps_tile s) hleq s.dim d.refines
+  refine ⟨?_, b.refine (Gen.refMapsOf s) d.refines, ?_, ?_, rx, by rw [rw1]; exact hbw⟩
+  · unfold Desc.numPoints
+    exact Nat.mul_le_mul hbp hrc
+  · unfold denoteQ
+    cases hk : d.fac.kind <;> simp only [hk] at hbq ⊢ <;> simp only [hbq, Option.map_some]
+  · rw [rl, hlen, refineCount_eq]; rfl
 
 /-- hypotheses are satisfiable by non-trivial values: the 79-point rule `dunavant:20` is a generated table -/
 example : ∃ t ∈ tablesOf .s2, t.fac = "dunavant".toList ∧ t.n = 20 ∧ t.w.length = 79 := by decide +kernel
